@@ -13,7 +13,8 @@
 (* fix: commits (F06, F09, F11); KnownRebase exempts the open finding KF-C05-1. *)
 EXTENDS Integers, Sequences, FiniteSets, SequencesExt, FiniteSetsExt, TLC
 
-CONSTANTS MaxOff, RollAt, AutoSync, MaxDel, FixRecoverStale, FixShortHdr, FixTailOrder, KnownRebase
+CONSTANTS MaxOff, RollAt, AutoSync, MaxDel, FixRecoverStale, FixShortHdr, FixTailOrder, KnownRebase,
+          FreshTmp   \* the temporary files of a rewrite get a random suffix: a leftover of a crashed rewrite is never reused
 
 VARIABLES dir,   \* name -> file ; name = <<base, kind, sfx>>
           h,     \* handle: [open, next]
@@ -92,8 +93,11 @@ PlanDelete(d, next, S) ==
       del == SelectSeq(src, LAMBDA o : o \in S)
       isHead == b = HeadBase(d)
       sync == IF isHead THEN <<Fsync(LogN(b)), Fsync(IdxN(b))>> ELSE <<>>
-      rewrite == sync \o Create(RwLog(b)) \o Apps(RwLog(b), surv) \o <<Fsync(RwLog(b))>>
-                 \o Create(RwIdx(b)) \o Apps(RwIdx(b), surv) \o <<Fsync(RwIdx(b))>>
+      \* (a fresh name is modelled as create-or-truncate of the one name the model has; with the same name every time -
+      \* seeded change S102 - the O_APPEND writer continues a leftover file)
+      tmp(n) == IF FreshTmp THEN CreateV(n, 2) ELSE Create(n)
+      rewrite == sync \o tmp(RwLog(b)) \o Apps(RwLog(b), surv) \o <<Fsync(RwLog(b))>>
+                 \o tmp(RwIdx(b)) \o Apps(RwIdx(b), surv) \o <<Fsync(RwIdx(b))>>
       dropTmp == <<Rem(RwIdx(b)), Rem(RwLog(b))>>
       dropOld == <<Rem(IdxN(b)), Rem(LogN(b))>>
       tailGone == del # <<>> /\ LastOf(del) = LastOf(src)
@@ -201,6 +205,11 @@ RecOK(r, allowed, minNext) ==
   /\ RecoverDir(r) = r                        \* recovering again changes nothing
   /\ LET a == ApplyAll(r, PlanPublish(r, NextOf(r), 1))   \* can be appended to, still consistent
      IN ViewsAgree(a) /\ Scan(a) = Scan(r) \o <<NextOf(r)>>
+  \* ... and used further: any single Delete, then a reopen, removes exactly that message (whatever the interrupted
+  \* operation left behind in the directory does not leak into later operations)
+  /\ \A o \in {Scan(r)[i] : i \in 1..Len(Scan(r))} :
+        LET a == RecoverDir(ApplyAll(r, PlanDelete(r, NextOf(r), {o})))
+        IN ViewsAgree(a) /\ Scan(a) = SelectSeq(Scan(r), LAMBDA x : x # o) /\ NextOf(a) = NextOf(r)
 
 \* all crash images of a plan: every prefix, and for a prefix ending before an append, torn variants
 TornOf(p) == IF p.p = "append" THEN {"h", "b"} ELSE {}
